@@ -451,6 +451,23 @@ func Emission(sc *Scn, r *Result, i int) []Issue {
 		if after > 1 {
 			out = append(out, Issue{"sent-after-destination-was-processed", fmt.Sprintf("%d probes emitted after the destination's reply had been read and the receiver had come back for more", after)})
 		}
+		// with a send delay the sender sleeps between probes while the receiver, holding the destination's answer, is runnable:
+		// one probe may be in flight and one may slip out while the answer is being processed - also when that answer ends
+		// the run with an error (SACK: the target acknowledges without blocks) and the receiver never comes back
+		if sc.SendDelayMs() > 0 {
+			seen, cnt := false, 0
+			for _, ev := range r.Net.Order {
+				switch {
+				case !seen && ev.Kind == "read-dest" && ev.Flow == o.SinkID:
+					seen = true
+				case seen && ev.Kind == "tx" && ev.Handle == o.SinkID:
+					cnt++
+				}
+			}
+			if cnt > 2 {
+				out = append(out, Issue{"sent-after-destination-answered", fmt.Sprintf("%d probes emitted after the destination's answer had been handed to the run", cnt)})
+			}
+		}
 	}
 	// the run's transport source port is its identifier on the wire: it stays reserved (owned by a socket) while probes go out
 	if o.SinkID >= 0 && o.SinkID < len(r.Net.Sinks) {
